@@ -25,7 +25,7 @@ Ltac finish :=
 Ltac red_all :=
   cbn [first_raise guard_holds holds mk_state sarg junk eval_i eval_l len_as cmpb tag_eqb o_tag o_len o_imm negb
        spec andb orb Z.add Pos.add Pos.succ Pos.add_carry] in *;
-  unfold indexed, typed, is_obj, in_range in *.
+  unfold indexed, typed, typed_io, is_obj, in_range in *.
 
 (** follow the guards: split only the value, object, tag or comparison the next test is stuck on;
     a branch in which a guard raises has a hypothesis k = -1 with k >= 0 and is closed at once *)
@@ -98,7 +98,8 @@ Section Refine.
   Proof. solve_refine. Qed.
 End Refine.
 
-(** all seventeen in one statement *)
+(** all twenty-four in one statement (the multi-path opcodes WRITE_CHAR / READ_CHAR / PEEK_CHAR through their first path: the
+    type guards are common to all paths) *)
 Definition prim_code (p : prim) : Z :=
   match p with
   | PrVectorRef => code_VECTOR_REF | PrVectorSet => code_VECTOR_SET | PrVectorLength => code_VECTOR_LENGTH
@@ -108,11 +109,15 @@ Definition prim_code (p : prim) : Z :=
   | PrStringCursorEnd => code_STRING_CURSOR_END | PrStringLength => code_STRING_LENGTH
   | PrCar => code_CAR | PrCdr => code_CDR | PrSetCar => code_SET_CAR | PrSetCdr => code_SET_CDR
   | PrMakeVector => code_MAKE_VECTOR
+  | PrCharToInt => code_CHAR2INT | PrIntToChar => code_INT2CHAR | PrCharUpcase => code_CHAR_UPCASE
+  | PrCharDowncase => code_CHAR_DOWNCASE | PrWriteChar => code_WRITE_CHAR | PrReadChar => code_READ_CHAR
+  | PrPeekChar => code_PEEK_CHAR
   end.
 
 Definition prim_args (p : prim) (a1 a2 a3 : val) : list val :=
   match p with
-  | PrVectorLength | PrBytesLength | PrStringCursorEnd | PrStringLength | PrCar | PrCdr => [a1]
+  | PrVectorLength | PrBytesLength | PrStringCursorEnd | PrStringLength | PrCar | PrCdr
+  | PrCharToInt | PrIntToChar | PrCharUpcase | PrCharDowncase | PrReadChar | PrPeekChar => [a1]
   | PrVectorSet | PrBytesSet | PrStringCursorSet => [a1; a2; a3]
   | _ => [a1; a2]
   end.
@@ -127,6 +132,7 @@ Proof.
   - apply refine_cursor_prev.  - apply refine_cursor_end.  - apply refine_string_length.
   - apply refine_car.  - apply refine_cdr.  - apply refine_set_car.  - apply refine_set_cdr.
   - apply refine_make_vector.
+  - solve_refine.  - solve_refine.  - solve_refine.  - solve_refine.  - solve_refine.  - solve_refine.  - solve_refine.
 Qed.
 
 Lemma guards_complete_spec_proof : forall p a1 a2 a3 a4,
